@@ -1116,3 +1116,12 @@ impl<T> RwsFindInit for Vec<T> {
     type Item = T;
     fn rws_find_init(&self) -> (r: Option<&T>) { None }
 }
+
+#[verifier::external_type_specification]
+#[verifier::external_body]
+pub struct ExIoError(std::io::Error);
+impl RwsToString for std::io::Error {
+    uninterp spec fn ts(&self) -> Seq<char>;
+    #[verifier::external_body]
+    fn rws_to_string(&self) -> String { self.to_string() }
+}
